@@ -91,6 +91,19 @@ partial def parseTabs : Nat → List String → Option (List Table × List Strin
     pure (⟨"", c, r⟩ :: l, ts)
   | _, _ => none
 
+/-- a call as the harness describes it; an invalid table name is refused before any store call -/
+def parseCall : List String → Option Call
+  | ["create", n] => (parseStr n).map (fun n => if validTableName n then Call.createStart n else .doneErr .invalidName)
+  | ["delete", n] => (parseStr n).map (fun n => if validTableName n then Call.deleteStart n else .doneErr .invalidName)
+  | ["restore", n] => (parseStr n).map (fun n => if validTableName n then Call.restoreStart n else .doneErr .invalidName)
+  | ["lease", node, n, dur] => do
+    let node ← node.toNat?; let n ← parseStr n; let dur ← dur.toInt?
+    pure (Call.leaseStart node n dur)
+  | ["return", node, n] => do
+    let node ← node.toNat?; let n ← parseStr n
+    pure (Call.returnStart node n)
+  | _ => none
+
 def cstep (st : CSt) (toks : List String) : CSt × String :=
   let bad := (st, "bad-op")
   match toks with
@@ -99,21 +112,17 @@ def cstep (st : CSt) (toks : List String) : CSt × String :=
     match id.toNat? with
     | none => bad
     | some id =>
-      -- a call is registered parked before its first store call; an invalid table name is refused
-      -- before any store call
-      let c : Option Call := match rest with
-        | ["create", n] => (parseStr n).map (fun n => if validTableName n then Call.createStart n else .doneErr .invalidName)
-        | ["delete", n] => (parseStr n).map (fun n => if validTableName n then Call.deleteStart n else .doneErr .invalidName)
-        | ["lease", node, n, dur] => do
-          let node ← node.toNat?; let n ← parseStr n; let dur ← dur.toInt?
-          pure (Call.leaseStart node n dur)
-        | ["return", node, n] => do
-          let node ← node.toNat?; let n ← parseStr n
-          pure (Call.returnStart node n)
-        | _ => none
-      match c with
+      -- a call is registered parked before its first store call
+      match parseCall rest with
       | some c => ({ st with calls := (id, c) :: st.calls }, callStr c)
       | none => bad
+  | "runcall" :: rest =>
+    -- a call of a single manager run to completion (mode catreal: the real engine, one call at a time)
+    match parseCall rest with
+    | some c =>
+      let (w', c') := st.w.run c
+      ({ st with w := w' }, callStr c')
+    | none => bad
   | ["sched", id] =>
     match id.toNat?.bind (fun i => st.calls.find? (·.1 == i)) with
     | some (id, c) =>
